@@ -66,6 +66,10 @@ func DateFromString(data string) (*Date, error) {
 		return nil, fmt.Errorf("Invalid date string: %s", data)
 	}
 
+	if year < 0 || year > 9999 || month < 1 || month > 12 || day < 1 || day > daysIn(year, month) {
+		return nil, fmt.Errorf("Invalid date string: %s", data)
+	}
+
 	dd := &Date{
 		Year:  int32(year),
 		Month: int32(month),
@@ -73,6 +77,21 @@ func DateFromString(data string) (*Date, error) {
 	}
 
 	return dd, nil
+}
+
+// daysIn returns the number of days of the month in the proleptic Gregorian calendar.
+func daysIn(year, month int) int {
+	switch month {
+	case 4, 6, 9, 11:
+		return 30
+	case 2:
+		if year%4 == 0 && (year%100 != 0 || year%400 == 0) {
+			return 29
+		}
+		return 28
+	default:
+		return 31
+	}
 }
 
 // Equals returns true if the two dates are equal.
